@@ -434,6 +434,11 @@ func (e *Engine) apply(i int, op Op) *Fail {
 			if err == nil {
 				return fail("prepareremove|target="+which+"|accepted", "PrepareRemoveDisk accepted "+which+" "+target, "C11")
 			}
+			// refused means not accepted for deletion in any form: the snapshot is
+			// not left marked as removed (the cleaner would take it later)
+			if di, ok := s.Replica().ListDisks()[target]; ok && m.Snaps[target] != nil && di.Removed != m.Snaps[target].Removed {
+				return fail("prepareremove|target="+which+"|refused-but-marked", fmt.Sprintf("PrepareRemoveDisk refused %s %s (%v) but its removed flag is now %v", which, target, err, di.Removed), "C11", "C12")
+			}
 			return nil
 		}
 		if which == "base" && len(m.Chain) > 2 {
